@@ -6,6 +6,7 @@ import Driver.CiaCmd
 import Driver.SaveCmd
 import Driver.NandCmd
 import Driver.CloseCmd
+import Driver.CodecCmd
 open Pyctr
 
 /-- `(fileops NODE (OP …))` → one rendered output per op, then the bottom buffers -/
@@ -44,6 +45,7 @@ def handle (line : String) : String :=
     | "save-run" | "cmac" => handleSave cmd args
     | "nand-open" | "nand-ops" | "nand-hdr" => handleNand cmd args
     | "close-run" => handleClose args
+    | "apptitle" | "smdh-bits" | "tiled" | "seeddb" | "cfg-load" | "cfg-build" | "lzss" | "desc-rt" | "bits16" => handleCodec cmd args
     | "ping" => "pong"
     | _ => "bad-cmd"
   | _ => "bad-line"
